@@ -202,6 +202,9 @@ class POP(BaseModelSingleSet):
         sample_name = self.sample_name
         feature_name = self.feature_name
 
+        # A new fit yields unsorted modes again
+        self.sorted = False
+
         # Transform in PC space
         X = self.pca.fit_transform(X)
 
